@@ -313,8 +313,14 @@ def _split_obligation(run, ix, spec, binary):
                         and ast.unparse(st.value.comparators[0]) in [k for k, val in ev.env.items() if val is m]:
                     ev.env[st.targets[0].id] = "ANYMASK"
                     continue
-                if isinstance(st, ast.If) and isinstance(st.test, ast.Call) and ast.unparse(st.test.func) == "np.any":
-                    ev.block(st.body)
+                # the case under study is "some run is too long": follow the branch taken when np.any(mask) holds,
+                # whichever way round the test is written
+                t_, neg = st.test if isinstance(st, ast.If) else None, False
+                while isinstance(t_, ast.UnaryOp) and isinstance(t_.op, ast.Not):
+                    t_, neg = t_.operand, not neg
+                if isinstance(st, ast.If) and isinstance(t_, ast.Call) and ast.unparse(t_.func) in ("np.any", "numpy.any") or \
+                        (isinstance(st, ast.If) and isinstance(t_, ast.Call) and isinstance(t_.func, ast.Attribute) and t_.func.attr == "any" and not t_.args):
+                    ev.block(st.orelse if neg else st.body)
                     if not hasattr(ev, "ret"):
                         continue
                     break
@@ -486,8 +492,8 @@ def check(run):
         run.violation("V2", f.where, f"points_to_indices is {rr}: not the rounded inverse transform of the points", key=key_of("C13-V2", "p2i"))
     f, rr = canon_returns("trimesh.voxel.transforms:Transform.transform_points")
     f2, rr2 = canon_returns("trimesh.voxel.transforms:Transform.inverse_transform_points")
-    fwd = "trimesh.transformations.transform_points(P_points.reshape(-1, 3), P_self.matrix).reshape(P_points.shape)"
-    inv = "trimesh.transformations.transform_points(P_points.reshape(-1, 3), P_self.inverse_matrix).reshape(P_points.shape)"
+    fwd = "trimesh.transformations.transform_points(P_points.reshape((-1, 3)), P_self.matrix).reshape(P_points.shape)"
+    inv = "trimesh.transformations.transform_points(P_points.reshape((-1, 3)), P_self.inverse_matrix).reshape(P_points.shape)"
     ok = fwd in rr and inv in rr2 and all(x in (fwd, "P_points.copy()", "P_points") for x in rr) and all(x in (inv, "P_points.copy()", "P_points") for x in rr2)
     run.instance("V2", f.where, f"forward {rr}; inverse {rr2}", ok)
     if not ok:
